@@ -6,7 +6,7 @@ from typing import Dict, List, Optional, Set, Tuple
 
 from ..astutil import is_const, store_targets
 from ..cfg import cfg_of
-from ..model import AnalysisError, Func, RepoModel, call_name, const_str, dotted, is_self_attr, literal, norm, walk_no_nested
+from ..model import AnalysisError, Func, RepoModel, call_name, const_str, dotted, is_self_attr, effective_body, literal, norm, walk_no_nested
 
 LA = "lang/lang_analysis.py"
 BASIC = "events/default_event_handlers/basic.py"
@@ -26,6 +26,81 @@ def _dict_with(n, **kv) -> bool:
         return False
     have = {const_str(k): v for k, v in zip(n.keys, n.values) if k is not None}
     return all(k in have and (v is None or const_str(have[k]) == v) for k, v in kv.items())
+
+
+def _min_gain(adj: Func, model: RepoModel) -> Optional[int]:
+    """Least value of (returned id - argument) over all arguments, by interval arithmetic over the function's straight-line/if code.
+    Abstract value: ('rel', lo, hi) = argument + [lo, hi], or ('abs', lo, hi).  None = not modelled."""
+    if len(adj.params) < 2:
+        return None
+    arg = adj.params[1]
+    consts = {k: literal(v) for k, v in model.module("config/config.py").assigns.items() if isinstance(literal(v), int)}
+
+    def ev(e, env):
+        if isinstance(e, ast.Constant) and isinstance(e.value, int):
+            return ("abs", e.value, e.value)
+        if isinstance(e, ast.Name):
+            return env.get(e.id)
+        if isinstance(e, ast.Attribute) and dotted(e) and dotted(e).startswith("config.") and e.attr in consts:
+            return ("abs", consts[e.attr], consts[e.attr])
+        if isinstance(e, ast.BinOp):
+            l, r = ev(e.left, env), ev(e.right, env)
+            if isinstance(e.op, ast.Mod) and r and r[0] == "abs" and r[1] == r[2] and r[1] > 0 and l is not None:
+                return ("abs", 0, r[1] - 1)
+            # (x // m) * m  ==  x - x % m
+            if isinstance(e.op, ast.Mult) and isinstance(e.left, ast.BinOp) and isinstance(e.left.op, ast.FloorDiv) and r and r[0] == "abs" and r[1] == r[2] and r[1] > 0 \
+                    and norm(e.left.right) == norm(e.right):
+                inner = ev(e.left.left, env)
+                return (inner[0], inner[1] - (r[1] - 1), inner[2]) if inner else None
+            if l is None or r is None:
+                return None
+            if isinstance(e.op, ast.Add):
+                if l[0] == "rel" and r[0] == "rel":
+                    return None
+                return ("rel" if "rel" in (l[0], r[0]) else "abs", l[1] + r[1], l[2] + r[2])
+            if isinstance(e.op, ast.Sub):
+                if r[0] == "rel":
+                    return None
+                return (l[0], l[1] - r[2], l[2] - r[1])
+        return None
+
+    def join(a, b):
+        if a is None or b is None or a[0] != b[0]:
+            return None
+        return (a[0], min(a[1], b[1]), max(a[2], b[2]))
+    results = []
+
+    def run_block(stmts, env) -> Optional[dict]:
+        """returns the env after the block, or None when every path returned; raises LookupError on unsupported code"""
+        for st in stmts:
+            if isinstance(st, ast.Expr) and isinstance(st.value, ast.Constant):
+                continue
+            if isinstance(st, ast.Assign) and len(st.targets) == 1 and isinstance(st.targets[0], ast.Name):
+                env = dict(env, **{st.targets[0].id: ev(st.value, env)})
+            elif isinstance(st, ast.AugAssign) and isinstance(st.target, ast.Name):
+                env = dict(env, **{st.target.id: ev(ast.BinOp(left=ast.Name(id=st.target.id, ctx=ast.Load()), op=st.op, right=st.value), env)})
+            elif isinstance(st, ast.Return):
+                results.append(ev(st.value, env) if st.value is not None else None)
+                return None
+            elif isinstance(st, ast.If):
+                a = run_block(st.body, env)
+                b = run_block(st.orelse, env)
+                if a is None and b is None:
+                    return None
+                if a is None or b is None:
+                    env = a if a is not None else b
+                else:
+                    env = {k: join(a.get(k), b.get(k)) for k in set(a) | set(b)}
+            else:
+                raise LookupError(type(st).__name__)
+        return env
+    try:
+        run_block(effective_body(adj.node), {arg: ("rel", 0, 0)})
+    except LookupError:
+        return None
+    if not results or any(r is None or r[0] != "rel" for r in results):
+        return None
+    return min(r[1] for r in results)
 
 
 def run(model: RepoModel, rep, tier: str):
@@ -167,8 +242,19 @@ def run(model: RepoModel, rep, tier: str):
     adds_gap = adj is not None and any(isinstance(n, ast.AugAssign) and isinstance(n.op, ast.Add) and dotted(n.value) == "config.MIN_ID_INTERVAL"
                                        for n in walk_no_nested(adj.node))
     only_increases = adj is not None and not any(isinstance(n, ast.AugAssign) and isinstance(n.op, (ast.Sub, ast.FloorDiv, ast.Mod)) for n in walk_no_nested(adj.node))
-    if offsets and isinstance(gap, int) and max(offsets) < gap and adds_gap and only_increases and len(set(offsets)) == len(offsets):
-        rep.holds("C03.R2", key, BASIC, amf.node.lineno, f"wrapper ids are last_stmt_id + {sorted(offsets)}; adjust_node_id adds MIN_ID_INTERVAL = {gap} and only rounds up")
+    # interval analysis of adjust_node_id: the least amount by which the returned id exceeds the id passed in
+    min_gain = _min_gain(adj, model) if adj is not None else None
+    rep.analysed["adjust_node_id: least gain over its argument (interval analysis)"] = min_gain
+    if min_gain is None:
+        rep.unknown("C03.R2", key, BASIC, amf.node.lineno, "adjust_node_id uses arithmetic the interval analysis does not model")
+    elif offsets and isinstance(gap, int) and adds_gap and len(set(offsets)) == len(offsets) and min_gain < max(offsets):
+        rep.violation("C03.R2", key, adj.module.rel, adj.node.lineno,
+                      f"the unit-initialiser wrapper takes ids last_stmt_id + {sorted(offsets)} (the flattener's next free id and the ones after it), "
+                      f"but adjust_node_id can return as little as its argument + {min_gain}: the next file then starts at an id the wrapper of this "
+                      f"file already uses -- two statements of the project share one id")
+    elif offsets and isinstance(gap, int) and max(offsets) < gap and adds_gap and only_increases and len(set(offsets)) == len(offsets):
+        rep.holds("C03.R2", key, BASIC, amf.node.lineno, f"wrapper ids are last_stmt_id + {sorted(offsets)}; adjust_node_id adds MIN_ID_INTERVAL = {gap} and only rounds up "
+                                                        f"(least gain {min_gain})")
     else:
         rep.violation("C03.R2", key, BASIC, amf.node.lineno,
                       f"the unit-initialiser wrapper takes ids last_stmt_id + {sorted(offsets)} but the gap adjust_node_id leaves is "
